@@ -83,7 +83,11 @@ def plan(tier):
     pl.units = common.arg_layer_units("A", chks=(True,)) + common.arg_support_units("A")
     pl.units.append(U("X.lookup.chk", "contracts.gating", "h_get_command_instance", (True, True), sample_models=True, native_ok=True))
 
+    pl.units += common.pushdown_units()
+
     def lf(u, label):
+        if u.uid.startswith("PD."):
+            return label.startswith(("P1.", "P2.", "P3.", "P4.", "P5.", "P6.", "P7."))
         if u.uid.startswith("X."):
             return label.startswith("X.") or label in ("G1.unknown-names-input",)
         return label in ("verdict", "exception-payload", "state.positional-count", "state.pending", "state.order-advances",
@@ -93,12 +97,13 @@ def plan(tier):
     pl.label_filter = lf
     pl.static = [static_T, lambda: lexfacts.obligations_L(PID), lambda: lexfacts.obligations_structure(PID)]
     pl.bounded = [bounded_tokens, bounded_generated]
-    pl.functions = common.ARG_FUNCTIONS + [("sievelib.commands", "get_command_instance")]
+    pl.functions = common.ARG_FUNCTIONS + [("sievelib.commands", "get_command_instance")] + common.PUSHDOWN_FUNCTIONS
     pl.trusted = [common.TRUSTED_LOWER, common.TRUSTED_RE, "frozen RFC command table (contracts/tables_frozen.py) and the RFC 5228 8.1 "
                   "token regexes in props/lexfacts.py, both hand-written from the RFCs",
                   "independent reference recognizer bounded/sieve_ref.py (oracle of the bounded part)"]
-    pl.unverified = ["language equivalence of the push-down layer (Parser.__command/__arguments/__up/__check_command_completion) with "
-                     "the RFC 5228 grammar: BOUNDED only (token sequences and generated scripts), never counted as proved"]
+    pl.unverified = ["language equivalence of the push-down layer with the RFC 5228 grammar: its step functions are under contract "
+                     "one by one (PD), but their composition over a token sequence is BOUNDED only (token sequences and generated "
+                     "scripts), never counted as proved"]
     pl.explanation = (
         "Deductive (all inputs, no bound): (A) the real check_next_arg/iscomplete of every built-in command class equal the "
         "transition function of the argument automaton over the FROZEN RFC table -- verdict, exception payload, successor "
@@ -107,5 +112,5 @@ def plan(tier):
         "of the corresponding lexer rule (regex inclusion); command lookup maps every name to a concrete command class or "
         "UnknownCommand. Bounded (labelled bounded): the push-down layer against an independent reference recognizer on all "
         "token sequences up to 4 (quick) / 5 (thorough) tokens over a 39-token vocabulary and on generated scripts with "
-        "single-token edits.")
+        "single-token edits." + common.PUSHDOWN_TEXT)
     return pl
